@@ -41,13 +41,18 @@ import (
 type ToolDef struct {
 	Name string `json:"name"`
 	Kind string `json:"kind"` // inv | str | both | none (a BaseTool that implements neither run interface)
-	Via  string `json:"via"`  // infer | new | raw | inferopt | raw2 | inferopt2 (raw/inferopt tools read the tag options, raw2/inferopt2 tools the options of the other implementation-specific type, infer/new tools none)
+	Via  string `json:"via"`  // infer | new | raw | inferopt | raw2 | inferopt2 | inferjson | newum (raw/inferopt tools read the tag options, raw2/inferopt2 tools the options of the other implementation-specific type, the others none; inferjson: utils' default output marshalling, i.e. every output / chunk as a JSON string; newum: utils tool with a custom argument unmarshaller)
 	// its Info call fails
 	InfoErr bool `json:"info_err,omitempty"`
 }
 
 // convTools cannot take this tool
 func (d ToolDef) bad() bool { return d.InfoErr || d.Kind == "none" }
+
+// utils' default marshalling: the output (every chunk of a streamed output) is rendered as a JSON string
+func (d ToolDef) jsonOut() bool { return d.Via == "inferjson" }
+
+func quote(s string) string { b, _ := json.Marshal(s); return string(b) }
 
 func anyBad(l []ToolDef) bool {
 	for _, d := range l {
@@ -533,24 +538,36 @@ func buildTool(rc *recorder, d ToolDef) (tool.BaseTool, error) {
 	strOptFn := func(ctx context.Context, in argT, opts ...tool.Option) (*schema.StreamReader[string], error) {
 		return rc.stream(ctx, name, in.K, tagOf(ot, opts))
 	}
-	mk := utils.WithMarshalOutput(rawMarshal)
+	var mk []utils.Option
+	if !d.jsonOut() {
+		mk = append(mk, utils.WithMarshalOutput(rawMarshal)) // otherwise utils falls back to JSON
+	}
+	if d.Via == "newum" {
+		mk = append(mk, utils.WithUnmarshalArguments(func(_ context.Context, args string) (interface{}, error) {
+			var a argT
+			if err := json.Unmarshal([]byte(args), &a); err != nil {
+				return nil, err
+			}
+			return a, nil
+		}))
+	}
 	mkInv := func() (tool.InvokableTool, error) {
 		if d.Via == "inferopt" || d.Via == "inferopt2" {
-			return utils.InferOptionableTool[argT, string](name, "inferred optionable "+name, invOptFn, mk)
+			return utils.InferOptionableTool[argT, string](name, "inferred optionable "+name, invOptFn, mk...)
 		}
-		if d.Via == "infer" {
-			return utils.InferTool[argT, string](name, "inferred "+name, invFn, mk)
+		if d.Via == "infer" || d.Via == "inferjson" {
+			return utils.InferTool[argT, string](name, "inferred "+name, invFn, mk...)
 		}
-		return utils.NewTool[argT, string](&schema.ToolInfo{Name: name, Desc: "new " + name}, invFn, mk), nil
+		return utils.NewTool[argT, string](&schema.ToolInfo{Name: name, Desc: "new " + name}, invFn, mk...), nil
 	}
 	mkStr := func() (tool.StreamableTool, error) {
 		if d.Via == "inferopt" || d.Via == "inferopt2" {
-			return utils.InferOptionableStreamTool[argT, string](name, "inferred optionable "+name, strOptFn, mk)
+			return utils.InferOptionableStreamTool[argT, string](name, "inferred optionable "+name, strOptFn, mk...)
 		}
-		if d.Via == "infer" {
-			return utils.InferStreamTool[argT, string](name, "inferred "+name, strFn, mk)
+		if d.Via == "infer" || d.Via == "inferjson" {
+			return utils.InferStreamTool[argT, string](name, "inferred "+name, strFn, mk...)
 		}
-		return utils.NewStreamTool[argT, string](&schema.ToolInfo{Name: name, Desc: "new " + name}, strFn, mk), nil
+		return utils.NewStreamTool[argT, string](&schema.ToolInfo{Name: name, Desc: "new " + name}, strFn, mk...), nil
 	}
 	if d.Via == "raw" || d.Via == "raw2" {
 		base := rawBase{name: name, rc: rc, ot: ot}
@@ -851,7 +868,7 @@ func (rc *recorder) settle(o *RunObs, c *Case) {
 	go func() { rc.producers.Wait(); close(pd) }()
 	select {
 	case <-pd:
-	case <-time.After(30 * time.Millisecond):
+	case <-time.After(10 * time.Millisecond):
 	}
 	rc.mu.Lock()
 	o.Exec = append([]xcall{}, rc.started...)
@@ -1137,7 +1154,7 @@ func (c *Case) coq(runs []string) string {
 		items := make([]string, len(l))
 		for i, t := range l {
 			k := map[string]string{"inv": "(Some KInv)", "str": "(Some KStr)", "both": "(Some KBoth)", "none": "None"}[t.Kind]
-			items[i] = lib.CoqApp("T", S(t.Name), k, lib.CoqN(uint64(t.optType())), lib.CoqBool(!t.InfoErr))
+			items[i] = lib.CoqApp("T", S(t.Name), k, lib.CoqN(uint64(t.optType())), lib.CoqBool(t.jsonOut()), lib.CoqBool(!t.InfoErr))
 		}
 		return lib.CoqList(items)
 	}
@@ -1201,6 +1218,16 @@ func (c *Case) lookup(name string) (kind string, ot int) {
 
 func (c *Case) kindOf(name string) string { k, _ := c.lookup(name); return k }
 
+// the tool a name resolves to in the list in force (zero value: unknown)
+func (c *Case) toolOf(name string) (d ToolDef) {
+	for _, t := range c.effTools() {
+		if t.Name == name {
+			d = t
+		}
+	}
+	return
+}
+
 func (c *Case) spec(streamed bool) spec {
 	s := spec{inDomain: true, first: -1, firstIdx: -1}
 	if !c.RoleOK || len(c.Calls) == 0 || anyBad(c.Tools) || anyBad(c.effTools()) {
@@ -1253,7 +1280,18 @@ func (c *Case) spec(streamed bool) spec {
 		if len(b.Chunks) == 0 {
 			s.inDomain = false
 		}
-		s.msgs = append(s.msgs, &Msg{b.output(tag, cl.Name), cl.ID})
+		out := b.output(tag, cl.Name)
+		if d := c.toolOf(cl.Name); d.jsonOut() { // utils renders the output / every chunk as a JSON string
+			if kind == "inv" {
+				out = quote(out)
+			} else {
+				out = ""
+				for _, ch := range b.outChunks(tag, cl.Name) {
+					out += quote(ch)
+				}
+			}
+		}
+		s.msgs = append(s.msgs, &Msg{out, cl.ID})
 		s.tags = append(s.tags, tag)
 	}
 	return s
@@ -1408,7 +1446,15 @@ func js(x any) string { b, _ := json.Marshal(x); return string(b) }
 // ---------------------------------------------------------------- generator
 
 var toolNames = []string{"ta", "tb", "tc", "td"}
-var vias = []string{"infer", "new", "raw", "inferopt", "raw", "inferopt", "raw2", "inferopt2"}
+var vias = []string{"infer", "new", "raw", "inferopt", "raw", "inferopt", "raw2", "inferopt2", "newum", "inferjson"}
+
+func genTool(r *lib.Rng, name string) ToolDef {
+	d := ToolDef{Name: name, Kind: r.Pick([]string{"inv", "str", "both"}), Via: r.Pick(vias)}
+	if d.jsonOut() && d.Kind == "both" {
+		d.Kind = r.Pick([]string{"inv", "str"})
+	}
+	return d
+}
 var tagPool = []string{"<o1>", "<o2>", "<x>", "", "~<a1>", "~<a2>", "~"}
 
 // another way of building a tool with the same attitude towards its options
@@ -1418,8 +1464,10 @@ func sameSeesVia(r *lib.Rng, via string) string {
 		return r.Pick([]string{"raw", "inferopt"})
 	case "raw2", "inferopt2":
 		return r.Pick([]string{"raw2", "inferopt2"})
+	case "inferjson":
+		return via
 	}
-	return r.Pick([]string{"infer", "new"})
+	return r.Pick([]string{"infer", "new", "newum"})
 }
 
 var unknownNames = []string{"zz", "yy"}
@@ -1436,7 +1484,7 @@ func genCase(r *lib.Rng, tier string) *Case {
 	nt := r.Range(1, 4)
 	perm := r.Perm(len(toolNames))
 	for i := 0; i < nt; i++ {
-		c.Tools = append(c.Tools, ToolDef{Name: toolNames[perm[i]], Kind: r.Pick([]string{"inv", "str", "both"}), Via: r.Pick(vias)})
+		c.Tools = append(c.Tools, genTool(r, toolNames[perm[i]]))
 	}
 	if r.Chance(1, 20) {
 		// the same name twice in the configuration: same kind and same attitude towards options, built
@@ -1463,7 +1511,7 @@ func genCase(r *lib.Rng, tier string) *Case {
 		if !r.Chance(1, 6) {
 			p2 := r.Perm(len(toolNames))
 			for i, m := 0, r.Range(1, 3); i < m; i++ {
-				l = append(l, ToolDef{Name: toolNames[p2[i]], Kind: r.Pick([]string{"inv", "str", "both"}), Via: r.Pick(vias)})
+				l = append(l, genTool(r, toolNames[p2[i]]))
 				names = append(names, toolNames[p2[i]])
 			}
 		}
@@ -1533,9 +1581,9 @@ func genCase(r *lib.Rng, tier string) *Case {
 		case 1:
 			b.Delay = r.Intn(200)
 		default:
-			b.Delay = r.Intn(1500)
+			b.Delay = r.Intn(800)
 		}
-		b.ChunkDelay = []int{0, 0, 50, 300}[r.Intn(4)]
+		b.ChunkDelay = []int{0, 0, 50, 200}[r.Intn(4)]
 		if faults {
 			switch {
 			case r.Chance(1, 5):
@@ -1607,6 +1655,19 @@ func (engine) Decode(raw json.RawMessage) (any, error) {
 	for _, cl := range c.Calls {
 		if cl.K < -1 || cl.K >= len(c.Behavs) {
 			return nil, fmt.Errorf("call refers to behaviour %d of %d", cl.K, len(c.Behavs))
+		}
+	}
+	lists := [][]ToolDef{c.Tools}
+	for _, o := range c.optSeq() {
+		if o.List != nil {
+			lists = append(lists, *o.List)
+		}
+	}
+	for _, l := range lists {
+		for _, d := range l {
+			if d.jsonOut() && d.Kind == "both" {
+				return nil, fmt.Errorf("tool %s: a JSON-marshalling tool of kind both answers differently when invoked and when streamed", d.Name)
+			}
 		}
 	}
 	return c, nil
@@ -1759,6 +1820,7 @@ func (engine) runCase(c *Case) lib.Result {
 	}
 	// distribution
 	kinds := map[string]bool{}
+	viasCalled := map[string]bool{}
 	unknown, fails, panics, zero, malformed := 0, 0, 0, 0, 0
 	for _, cl := range c.Calls {
 		k := c.kindOf(cl.Name)
@@ -1767,6 +1829,7 @@ func (engine) runCase(c *Case) lib.Result {
 			continue
 		}
 		kinds[k] = true
+		viasCalled[c.toolOf(cl.Name).Via] = true
 		if cl.K < 0 {
 			malformed++
 			continue
@@ -1791,6 +1854,9 @@ func (engine) runCase(c *Case) lib.Result {
 		fmt.Sprintf("unknown:%v", unknown > 0), fmt.Sprintf("failing:%d", min(fails, 3)), fmt.Sprintf("panicking:%d", min(panics, 2))}
 	if zero > 0 {
 		res.Tags = append(res.Tags, "domain:zero-chunk-stream(outside)")
+	}
+	for v := range viasCalled {
+		res.Tags = append(res.Tags, "called-tool-built-via:"+v)
 	}
 	nList, nOpt := 0, 0
 	for _, o := range c.optSeq() {
@@ -1930,7 +1996,7 @@ func (engine) Shrink(ci any, stillFails func(any) bool) any {
 // streamed call under the case's own delays and under the schedule in which the panicking
 // executions finish last; the parent reads the child's verdict, or its crash.
 const childEnv = "VERIF_C17_STREAM_CHILD"
-const streamProbeN = 8
+const streamProbeN = 12
 
 // child side
 func streamProbes(c *Case) lib.Result {
@@ -1977,10 +2043,15 @@ func isolatedStreamProbes(c *Case) (string, string, []RunObs) {
 	cmd := exec.CommandContext(ctx, os.Args[0], "--replay", rf, "--oracle-only", "--n", "0", "--shards", "1", "--out", dir)
 	env := []string{childEnv + "=1"}
 	for _, kv := range os.Environ() {
-		if !strings.HasPrefix(kv, "VERIF_RUNDIR=") { // the crash marker is the parent's
+		switch {
+		case strings.HasPrefix(kv, "VERIF_RUNDIR="): // the crash marker is the parent's
+		case strings.HasPrefix(kv, "GORACE="): // below
+		default:
 			env = append(env, kv)
 		}
 	}
+	// same race log as the parent; without the race runtime's one-second sleep at exit
+	env = append(env, strings.TrimSpace("GORACE="+os.Getenv("GORACE")+" atexit_sleep_ms=0"))
 	cmd.Env = env
 	var stderr strings.Builder
 	cmd.Stderr = &stderr
